@@ -311,14 +311,42 @@ func c07R2(r *Report) {
 	r.Fn(run)
 	okR := false
 	connF := p.Field("peer", "Peer", "conn")
+	runInit := ssa.Value(run.Params[len(run.Params)-1])
 	allInstrs(run, func(in ssa.Instruction) {
 		g, ok := in.(*ssa.Go)
 		if !ok || g.Call.StaticCallee() != reader {
 			return
 		}
 		fv, _ := loadedField(g.Call.Args[0])
-		okR = g.Call.Args[1] == ssa.Value(run.Params[len(run.Params)-1]) && fv == connF
+		okR = g.Call.Args[1] == runInit && fv == connF
 	})
+	if !okR {
+		// reader := startReader(peer, init, logger): a private helper of Run that starts the reader with the
+		// connection of the peer and the init it is handed
+		allInstrs(run, func(in ssa.Instruction) {
+			c, ok := in.(*ssa.Call)
+			if !ok || c.Call.IsInvoke() {
+				return
+			}
+			h := c.Call.StaticCallee()
+			if h == nil || h.Blocks == nil || relPkg(h) != "peer" || !p.inUnitOf(h, run) || len(c.Call.Args) != len(h.Params) {
+				return
+			}
+			allInstrs(h, func(i2 ssa.Instruction) {
+				g, ok := i2.(*ssa.Go)
+				if !ok || g.Call.StaticCallee() != reader {
+					return
+				}
+				fv, _ := loadedField(g.Call.Args[0])
+				for k, prm := range h.Params {
+					if g.Call.Args[1] == ssa.Value(prm) && c.Call.Args[k] == runInit && fv == connF {
+						r.Fn(h)
+						okR = true
+					}
+				}
+			})
+		})
+	}
 	n++
 	r.Check(okR, "R2", "Run/go-Reader(peer.conn,init)", run.Pos(), "the reader goroutine gets the peer's connection and Run's init", "protocol.Reader is not started with (peer.conn, init)")
 	// link 5: Reader prepends init exactly once
@@ -438,7 +466,31 @@ func c07R3(r *Report) {
 		}
 		return (bo.Op == token.NEQ && !pol) || (bo.Op == token.EQL && pol)
 	}
-	missing, reached := pathsMissingX(cc, -1, isReply, nil, []edgeReq{{Name: "skey.Equal(info-hash)", Cond: eqCond, Pol: true}}, skeyNil)
+	// the comparison may be made in a helper (findTorrent(hashes, hsh, skey) → pair, err): inside it the key is the
+	// parameter that receives skey, and — there as here — the `skey == nil` edge belongs to connections that made no
+	// MSE handshake, so it counts as met
+	matchS := func(subj []ssa.Value, cond ssa.Value, pol bool) bool {
+		if len(subj) == 0 || subj[0] == nil {
+			return false
+		}
+		k := subj[0]
+		if c, ok := cond.(*ssa.Call); ok && pol {
+			if cal := c.Call.StaticCallee(); cal != nil && cal.Name() == "Equal" && relPkg(cal) == "hash" && len(c.Call.Args) == 2 {
+				if derivesFrom(c.Call.Args[0], k, 0) || derivesFrom(c.Call.Args[1], k, 0) {
+					return true
+				}
+			}
+		}
+		if k != skey {
+			if bo, ok := cond.(*ssa.BinOp); ok && isNilConst(bo.Y) && derivesFrom(bo.X, k, 0) {
+				return (bo.Op == token.NEQ && !pol) || (bo.Op == token.EQL && pol)
+			}
+		}
+		return false
+	}
+	_ = eqCond
+	missing, reached := pathsMissingX(cc, -1, isReply, nil, []edgeReq{{Name: "skey.Equal(info-hash)", MatchS: matchS, Subj: []ssa.Value{skey}, ViaHelper: true,
+		SubjSame: func(a, sv ssa.Value) bool { return derivesFrom(a, sv, 0) }}}, skeyNil)
 	// premise: crypto.ServerHandshake never succeeds with a nil skey
 	{
 		r.Fn(csh)
